@@ -19,6 +19,10 @@ Definition req_of (c : nat) (sid : pystr) (o : op) : nat :=
       if Nat.eqb c c' && validate_message m && negb lim && str_eqb (as_str (jv_nth 0 m)) (pys "REQ")
          && match py_str (jv_nth 1 m) with Some s => str_eqb s sid | None => false end
       then 1 else 0
+  | OReqGone c' m _ _ _ =>
+      if Nat.eqb c c' && validate_message m && negb false && str_eqb (as_str (jv_nth 0 m)) (pys "REQ")
+         && match py_str (jv_nth 1 m) with Some s => str_eqb s sid | None => false end
+      then 1 else 0
   | _ => 0
   end%nat.
 Fixpoint reqs (c : nat) (sid : pystr) (ops : list op) : nat :=
@@ -188,6 +192,55 @@ Proof.
              apply Up; try assumption; apply Pre_emit_noeose; try assumption; intros; reflexivity.
 Qed.
 
+(* the handler only ever appends frames to the transcript *)
+Definition Prep (x y : conn) : Prop := exists l, c_out y = l ++ c_out x.
+Lemma Prep_refl x : Prep x x. Proof. exists []. reflexivity. Qed.
+Lemma Prep_emit f x y : Prep x y -> Prep x (emit f y).
+Proof. intros [l E]. unfold emit. destruct (c_open y); [exists (f :: l); simpl; rewrite E; reflexivity | exists l; assumption]. Qed.
+Lemma Prep_cancel cfg s x : Prep x (cancel_sub cfg s x).
+Proof. exists []. simpl. apply out_cancel. Qed.
+
+Lemma handle_msg_prepends cfg st c x m lim rows prep cq add auth st' x' d :
+  handle_msg cfg st c x m lim rows prep cq add auth = (st', x', d) -> Prep x x'.
+Proof.
+  unfold handle_msg.
+  destruct (negb (validate_message m)); [intros E; inversion E; subst; apply Prep_refl|].
+  destruct lim.
+  - destruct (str_eqb (as_str (jv_nth 0 m)) (pys "EVENT")).
+    + destruct (jv_nth 1 m); try (intros E; inversion E; subst; apply (Prep_emit _ x x), Prep_refl).
+      destruct (jget (pys "id") kv) as [[]|]; intros E; inversion E; subst;
+        try apply Prep_refl; apply (Prep_emit _ x x), Prep_refl.
+    + intros E; inversion E; subst. apply (Prep_emit _ x x), Prep_refl.
+  - destruct (str_eqb (as_str (jv_nth 0 m)) (pys "REQ")).
+    + unfold handle_req. destruct (py_str (jv_nth 1 m)) as [s|]; [|intros E; inversion E; subst; apply Prep_refl].
+      pose proof (Prep_cancel cfg s x) as Pc.
+      match goal with |- context [if ?b then (_, emit (FrNotice s_rejected) _, _) else _] => destruct b end;
+        [intros E; inversion E; subst; apply Prep_emit; assumption|].
+      destruct (validate_all _ _) as [fs| | |]; try (intros E; inversion E; subst; try apply Prep_emit; assumption).
+      destruct fs; [intros E; inversion E; subst; destruct Pc as [l El]; exists (if c_open (cancel_sub cfg s x) then FrEose s :: l else l);
+                    unfold emit; simpl; destruct (c_open (cancel_sub cfg s x)); simpl; rewrite El; reflexivity|].
+      destruct prep; [destruct cq|]; intros E; inversion E; subst.
+      * destruct Pc as [l El]. exists l. simpl. assumption.
+      * apply Prep_emit; assumption.
+      * destruct Pc as [l El]. exists (if c_open (cancel_sub cfg s x) then FrEose s :: l else l).
+        unfold emit; simpl; destruct (c_open (cancel_sub cfg s x)); simpl; rewrite El; reflexivity.
+    + destruct (str_eqb (as_str (jv_nth 0 m)) (pys "CLOSE")).
+      * destruct (py_str (jv_nth 1 m)); intros E; inversion E; subst; [apply Prep_cancel | apply Prep_refl].
+      * destruct (str_eqb (as_str (jv_nth 0 m)) (pys "EVENT")).
+        -- destruct add as [e changed|r|r]; intros E; inversion E; subst; apply (Prep_emit _ x x), Prep_refl.
+        -- destruct (auth_enabled cfg); [destruct auth|]; intros E; inversion E; subst;
+             try apply Prep_refl; apply (Prep_emit _ x x), Prep_refl.
+Qed.
+
+Lemma eose_filter_le sid (f : frame -> bool) l out :
+  (eose_n sid (List.filter f l ++ out) <= eose_n sid (l ++ out))%nat.
+Proof.
+  unfold eose_n. rewrite !filter_app, !app_length.
+  assert (length (List.filter (is_eose sid) (List.filter f l)) <= length (List.filter (is_eose sid) l))%nat.
+  { induction l as [|a l IH]; simpl; [lia|]. destruct (f a); simpl; destruct (is_eose sid a); simpl; lia. }
+  lia.
+Qed.
+
 (* ---- lifting to states ---- *)
 Lemma Acc_set st c x n n' :
   Acc st n -> (forall c' sid, (n c' sid <= n' c' sid)%nat) -> Pre x (n' c) ->
@@ -256,7 +309,7 @@ Proof.
   intros Hk HA.
   assert (Up : forall s, Acc s n -> Acc s (fun c sid => n c sid + req_of c sid o)%nat).
   { intros s H c x E. destruct (H c x E) as [A B]. split; [assumption|]. intros sid. specialize (B sid). lia. }
-  destruct o as [c|c m lim rows prep cq add auth|c|c|c sid|k|c]; simpl.
+  destruct o as [c|c m lim rows prep cq add auth|c|c|c sid|k|c|c m rows prep cq]; simpl.
   - destruct (get_conn c (r_conns st)); [discriminate|]. intros E; inversion E; subst.
     unfold Acc. simpl. apply (Acc_set st c new_conn n); [assumption | intros; lia|].
     split; [reflexivity|]. intros sid. unfold eose_n, pend. simpl. lia.
@@ -309,6 +362,23 @@ Proof.
     intros E; inversion E; subst. unfold Acc, drop_conn. simpl.
     apply (Acc_set st c _ n); [assumption | intros; lia|]. apply Pre_closed.
     eapply Pre_mono; [|exact (HA _ _ Ex)]. intros; simpl; lia.
+  - destruct (get_conn c (r_conns st)) as [x|] eqn:Ex; [|discriminate]. destruct (c_open x); [|discriminate].
+    destruct (handle_msg cfg st c x m false rows prep cq (AddCrash []) AuthOk) as [[st1 x1] d] eqn:Eh.
+    destruct (handle_msg_acc _ _ _ _ _ _ _ _ _ _ _ _ _ _ (n c) Hk (HA _ _ Ex) Eh) as [Hc HP].
+    destruct (handle_msg_prepends _ _ _ _ _ _ _ _ _ _ _ _ _ _ Eh) as [l El].
+    assert (Hfresh : firstn (length (c_out x1) - length (c_out x)) (c_out x1) = l).
+    { rewrite El, app_length. replace (length l + length (c_out x) - length (c_out x))%nat with (length l) by lia.
+      rewrite firstn_app, Nat.sub_diag, firstn_all. simpl. apply app_nil_r. }
+    assert (Fin : forall kept, (forall sid, (eose_n sid (kept ++ c_out x) <= eose_n sid (c_out x1))%nat) ->
+            Acc (drop_conn st1 c {| c_subs := c_subs x1; c_out := kept ++ c_out x; c_open := c_open x1;
+                                    c_throttle := c_throttle x1; c_sender := c_sender x1; c_deferred := [] |})
+                (fun c0 sid => (n c0 sid + req_of c0 sid (OReqGone c m rows prep cq))%nat)).
+    { intros kept Hkept. unfold Acc, drop_conn. simpl. rewrite Hc.
+      apply (Acc_set st c _ n); [assumption | intros; lia|]. split; [reflexivity|]. intros sid. unfold pend. simpl.
+      destruct HP as [_ HP]. specialize (HP sid). specialize (Hkept sid). unfold msg_req in HP. simpl.
+      rewrite Nat.eqb_refl. simpl in *. lia. }
+    destruct d; intros E; try discriminate; injection E as <-; rewrite Hfresh; apply Fin; intros sid; rewrite El;
+      destruct (c_sender x); try apply eose_filter_le; lia.
 Qed.
 
 Theorem run_acc cfg ops : forall st st' n,
